@@ -14,9 +14,17 @@ static void note_hex(char *q, const char *s) {
 }
 static int h_X509_check_host(X509 *x, const char *chk, size_t chklen, unsigned int flags, char **peername) {
     int r = X509_check_host(x, chk, chklen, flags, peername);
-    char tmp[1200] = " hc:";
+    char tmp[3600] = " hc:";
     note_hex(tmp, chk);
-    sprintf(tmp + strlen(tmp), ":%d:%d", (flags & X509_CHECK_FLAG_NEVER_CHECK_SUBJECT) ? 0 : 1, r);
+    sprintf(tmp + strlen(tmp), ":%u:%d", flags, r);
+    /* the library's answers under the documented rules (whole-label wildcards only; CN only with the CN check),
+       for the specification to refer to */
+    strcat(tmp, " hcref:");
+    note_hex(tmp, chk);
+    sprintf(tmp + strlen(tmp), ":1:%d", X509_check_host(x, chk, chklen, X509_CHECK_FLAG_NO_PARTIAL_WILDCARDS, NULL));
+    strcat(tmp, " hcref:");
+    note_hex(tmp, chk);
+    sprintf(tmp + strlen(tmp), ":0:%d", X509_check_host(x, chk, chklen, X509_CHECK_FLAG_NO_PARTIAL_WILDCARDS | X509_CHECK_FLAG_NEVER_CHECK_SUBJECT, NULL));
     h_transcript_note(tmp);
     return r;
 }
